@@ -64,6 +64,11 @@ impl<T> Guard<T> {
   }
 }
 
+fn case_file() -> Option<&'static str> {
+  static F: std::sync::OnceLock<Option<String>> = std::sync::OnceLock::new();
+  F.get_or_init(|| std::env::var("VH_CASE_FILE").ok()).as_deref()
+}
+
 #[derive(Clone, Debug)]
 pub struct Violation {
   pub property: String,
@@ -103,6 +108,12 @@ impl Report {
     *self.counters.entry(k.to_string()).or_insert(0) += n;
   }
   pub fn nontrivial(&mut self, key: String) {
+    // post-mortem aid: when the driver re-runs a command whose process was killed by an abort in
+    // the code under test (allocation failure, stack overflow, double panic — nothing catch_unwind
+    // can turn into data), it sets VH_CASE_FILE and reads the label of the last case started
+    if let Some(path) = case_file() {
+      let _ = std::fs::write(path, &key);
+    }
     self.nontrivial.insert(key);
   }
   pub fn sample(&mut self, v: Value) {
